@@ -638,3 +638,231 @@ def check_scans(rep, rule, m, only=None, skip_prints=True):
         else:
             rule.ok()
     return n
+
+
+# ---------------------------------------------------------------------------------------------------------------
+# repositioning an entry after its keys were changed
+
+def check_reposition(rep, rule, m):
+    """cmi_hashheap_reprioritize stores new keys into the entry at idx and must then restore the heap order: heap_up(idx) is
+    needed exactly when the new keys sort before the parent's (idx > 1), heap_down(idx) when they sort after a child's.
+    Decided by running every path of the routine over all scenarios of a small model: heap size N <= 7, position idx,
+    new keys before / equal / after the old ones, and - consistent with the heap order that held before - whether the
+    parent / a child is now out of order.  Tests are read as atoms: the comparator applied to (old copy, entry), (entry,
+    old copy), (entry, parent slot idx >> 1) - for idx == 1 that slot is the scratch slot 0, whose content is arbitrary, so
+    both outcomes are explored - and conditions over idx and heap_count, which are evaluated.  Any other test is
+    explored both ways.  A scenario in which a needed sift is not called is a violation."""
+    import itertools
+    from .. import inv
+    from ..astutil import int_value
+    f = m.need("cmi_hashheap_reprioritize")
+    cx = FuncCtx(m, f)
+    hp = f.params[0]["name"]
+    dparam, iparam = f.params[2]["name"], f.params[3]["name"]
+    IDXS = {"cmi_hash_find_index(%s, %s)" % (hp, f.params[1]["name"])}
+
+    def is_entry(c):
+        mm_ = re.fullmatch(r"\(\(.+\) \? (.+) : NULL\)", c)
+        if mm_:
+            c = mm_.group(1)                       # (test ? &entry : NULL): the entry where it is used at all
+        c = c.lstrip("&")
+        for ix in IDXS:
+            forms = ("%s->heap[%s]" % (hp, ix), "(%s->heap + %s)" % (hp, ix), "*(%s->heap + %s)" % (hp, ix), "%s->heap + %s" % (hp, ix))
+            if c in forms or (c.startswith("(") and c.endswith(")") and c[1:-1] in forms):
+                return True
+        return False
+
+    def is_parent(c):
+        c = c.lstrip("&")
+        for ix in IDXS:
+            if re.fullmatch(r"\(?%s->heap\[\(%s (>> 1|/ 2)\)\]\)?" % (re.escape(hp), re.escape(ix)), c) or \
+                    re.fullmatch(r"\(%s->heap \+ \(%s (>> 1|/ 2)\)\)" % (re.escape(hp), re.escape(ix)), c):
+                return True
+        return False
+
+    class Abort(Exception):
+        pass
+    findings = []
+    scenarios = 0
+
+    def positional(c, idx, N):
+        e = c
+        for ix in IDXS:
+            e = e.replace(ix, " IDX ")
+        e = e.replace("%s->heap_count" % hp, " N ")
+        e = e.replace("&&", " and ").replace("||", " or ")
+        e = re.sub(r"!(?!=)", " not ", e)
+        e = re.sub(r"(?<=\d)[uUlL]+\b", "", e)
+        if re.search(r"[A-Za-z_]\w*", re.sub(r"\b(IDX|N|and|or|not)\b", "", e)):
+            return None
+        try:
+            return bool(eval(e, {"__builtins__": {}}, {"IDX": idx, "N": N}))
+        except Exception:
+            return None
+
+    def run(N, idx, rel, p, c):
+        """all executions for one scenario: returns list of (called set) per completed path"""
+        results = []
+
+        def classify(opnd, st):
+            cs = cx.canon(opnd)
+            n0 = strip(opnd, casts=True)
+            if n0["kind"] == "UnaryOperator" and n0.get("opcode") == "&":
+                n0 = strip(kids(n0)[0], casts=True)
+            if n0["kind"] == "DeclRefExpr" and n0["ref"]["id"] in st["snap"]:
+                return st["snap"][n0["ref"]["id"]]
+            if n0["kind"] == "DeclRefExpr" and n0["ref"]["id"] in st["alias_entry"]:
+                return "new" if st["stored"] >= 2 else "old"
+            if is_entry(cs):
+                return "new" if st["stored"] >= 2 else "old"
+            if is_parent(cs):
+                return "parent"
+            return None
+
+        def atom_value(call, st):
+            a, b = kids(call)[1], kids(call)[2]
+            ka, kb = classify(a, st), classify(b, st)
+            if (ka, kb) == ("old", "new"):
+                return [rel == ">"]
+            if (ka, kb) == ("new", "old"):
+                return [rel == "<"]
+            if (ka, kb) == ("new", "parent"):
+                return [p] if idx > 1 else [True, False]
+            if (ka, kb) == ("parent", "new"):
+                return [not p] if idx > 1 else [True, False]
+            return [True, False]
+
+        def cond_values(cnode, st):
+            c0 = strip(cnode, casts=True)
+            if c0["kind"] == "UnaryOperator" and c0.get("opcode") == "!":
+                return [not v for v in cond_values(kids(c0)[0], st)]
+            if c0["kind"] == "BinaryOperator" and c0.get("opcode") in ("&&", "||"):
+                out = set()
+                for va in cond_values(kids(c0)[0], st):
+                    if c0["opcode"] == "&&" and not va:
+                        out.add(False)
+                    elif c0["opcode"] == "||" and va:
+                        out.add(True)
+                    else:
+                        out |= set(cond_values(kids(c0)[1], st))
+                return sorted(out)
+            if c0["kind"] == "DeclRefExpr" and c0["ref"]["id"] in st["bools"]:
+                return st["bools"][c0["ref"]["id"]]       # the outcome as it was when the comparison was made
+            r0 = cx.resolve(c0)
+            if r0["kind"] == "CallExpr" and callee_ref(r0) is None and "heap_compare" in cx.canon(kids(r0)[0]):
+                return atom_value(r0, st)
+            pv = positional(cx.canon(c0), idx, N)
+            if pv is not None:
+                return [pv]
+            return [True, False]
+
+        def exec_stmts(stmts, st, cont):
+            if not stmts:
+                return cont(st)
+            s, rest = stmts[0], stmts[1:]
+            k = s["kind"]
+            if k == "CompoundStmt":
+                return exec_stmts(list(kids(s)) + rest, st, cont)
+            if is_assert(s) or k in ("NullStmt",):
+                return exec_stmts(rest, st, cont)
+            if k == "DeclStmt":
+                for vd in kids(s):
+                    if vd["kind"] != "VarDecl" or not kids(vd):
+                        continue
+                    ini = kids(vd)[0]
+                    t = vd.get("type") or ""
+                    ic = cx.canon(ini)
+                    if "struct cmi_heap_tag" in t and "*" not in t:
+                        if is_entry(ic) or (strip(ini, casts=True)["kind"] == "DeclRefExpr" and False):
+                            st = dict(st, snap=dict(st["snap"], **{vd["id"]: ("new" if st["stored"] >= 2 else "old")}))
+                        else:
+                            r_ = strip(ini, casts=True)
+                            if r_["kind"] == "UnaryOperator" and r_.get("opcode") == "*":
+                                q_ = strip(kids(r_)[0], casts=True)
+                                if q_["kind"] == "DeclRefExpr" and q_["ref"]["id"] in st["alias_entry"]:
+                                    st = dict(st, snap=dict(st["snap"], **{vd["id"]: ("new" if st["stored"] >= 2 else "old")}))
+                    elif "*" in t and "cmi_heap_tag" in t:
+                        if is_entry(ic):
+                            st = dict(st, alias_entry=st["alias_entry"] | {vd["id"]})
+                    elif re.fullmatch(r"\((.+) - %s->heap\)" % re.escape(hp), ic) and \
+                            is_entry(re.fullmatch(r"\((.+) - %s->heap\)" % re.escape(hp), ic).group(1)):
+                        IDXS.add(ic)                      # the position recomputed from the entry's address
+                    elif t.replace("const ", "").strip() in ("bool", "_Bool", "int"):
+                        r0 = strip(ini, casts=True)
+                        if r0["kind"] == "CallExpr" and callee_ref(r0) is None and "heap_compare" in cx.canon(kids(r0)[0]):
+                            vals = atom_value(r0, st)
+                            outs = []
+                            for v in vals:
+                                st2 = dict(st, bools=dict(st["bools"], **{vd["id"]: [v]}))
+                                outs.append(exec_stmts(rest, st2, cont))
+                            return None
+                return exec_stmts(rest, st, cont)
+            if k == "BinaryOperator" and s.get("opcode") == "=":
+                l = strip(kids(s)[0], casts=True)
+                if l["kind"] == "MemberExpr" and l.get("name") in ("dsortkey", "isortkey"):
+                    base = strip(kids(l)[0], casts=True)
+                    rv = cx.canon(kids(s)[1])
+                    tgt_entry = is_entry(cx.canon(base)) or (base["kind"] == "DeclRefExpr" and base["ref"]["id"] in st["alias_entry"])
+                    if tgt_entry:
+                        st = dict(st, stored=st["stored"] + 1)
+                    elif base["kind"] == "DeclRefExpr" and base["ref"]["id"] in st["snap"] and rv in (dparam, iparam):
+                        cnt = st["snapw"].get(base["ref"]["id"], 0) + 1
+                        st = dict(st, snapw=dict(st["snapw"], **{base["ref"]["id"]: cnt}))
+                        if cnt >= 2:
+                            st = dict(st, snap=dict(st["snap"], **{base["ref"]["id"]: "new"}))
+                return exec_stmts(rest, st, cont)
+            if k == "IfStmt":
+                ch = kids(s)
+                for v in cond_values(ch[0], st):
+                    br = ch[1] if v else (ch[2] if len(ch) > 2 else None)
+                    exec_stmts(([br] if br is not None else []) + rest, st, cont)
+                return None
+            if k == "ReturnStmt":
+                return cont(st)
+            c0 = strip(s, casts=True)
+            if c0["kind"] == "CallExpr" and callee_ref(c0) in ("heap_up", "heap_down"):
+                a = [cx.canon(z) for z in kids(c0)[1:]]
+                if len(a) == 2 and a[0] == hp and a[1] in IDXS:
+                    st = dict(st, called=st["called"] | {callee_ref(c0)})
+                return exec_stmts(rest, st, cont)
+            if k in ("ForStmt", "WhileStmt", "DoStmt", "SwitchStmt"):
+                raise AnalysisBroken("cmi_hashheap_reprioritize: a loop in the repositioning routine is not modelled")
+            return exec_stmts(rest, st, cont)
+        st0 = {"stored": 0, "snap": {}, "snapw": {}, "alias_entry": frozenset(), "bools": {}, "called": frozenset()}
+        exec_stmts(list(kids(f.body)), st0, lambda st: results.append(st))
+        return results
+
+    from ..vals import is_assert_stmt as is_assert
+    bad = {}
+    for N in range(1, 8):
+        for idx in range(1, N + 1):
+            for rel in ("<", "=", ">"):
+                for p in (False, True):
+                    if p and not (idx > 1 and rel == "<"):
+                        continue
+                    for c in (False, True):
+                        if c and not (2 * idx <= N and rel == ">"):
+                            continue
+                        scenarios += 1
+                        for st in run(N, idx, rel, p, c):
+                            if st["stored"] < 2:
+                                bad.setdefault("keys", (N, idx, rel))
+                            if p and "heap_up" not in st["called"]:
+                                bad.setdefault("up", (N, idx, rel))
+                            if c and "heap_down" not in st["called"]:
+                                bad.setdefault("down", (N, idx, rel))
+    rule.instance("cmi_hashheap_reprioritize: %d scenarios (heap sizes 1..7, every position, new keys before / equal / after "
+                  "the old ones, parent / child out of order where the old order allows it)" % scenarios)
+    if scenarios < 50:
+        raise AnalysisBroken("reposition model: too few scenarios")
+    for kind, (N, idx, rel) in sorted(bad.items()):
+        what = {"up": "the entry is not sifted up although its new keys sort before its parent's",
+                "down": "the entry is not sifted down although its new keys sort after a child's",
+                "keys": "a path does not store both new keys in the entry"}[kind]
+        rep.finding(rule, f.name, "resift:" + kind, "cmi_hashheap_reprioritize: with %d entries, the entry at position %d and new "
+                    "keys that sort %s the old ones, %s on some path: the heap order is broken and the front is no longer "
+                    "the minimum (for position 1 the 'parent' slot is the scratch slot 0, whose content is arbitrary)"
+                    % (N, idx, {"<": "before", "=": "like", ">": "after"}[rel], what), where=m.rel(f.where))
+        rule.fail()
+    if not bad:
+        rule.ok()
